@@ -167,8 +167,7 @@ Definition pl_agg1 (mf : string -> Q -> option Q) (m : string) (l : list sval) :
       else if String.eqb m "mean" then Some (match qs with [] => SNull | _ => SNum (qmean qs) end)
       else if String.eqb m "max" then Some (match qfold1 qmax2 qs with Some v => SNum v | None => SNull end)
       else if String.eqb m "min" then Some (match qfold1 qmin2 qs with Some v => SNum v | None => SNull end)
-      else if String.eqb m "nunique" then     (* n_unique counts null as one more value *)
-        Some (nat_sv (List.length (qdistinct qs) + (if (List.length qs <? List.length l)%nat then 1 else 0)))
+      else if String.eqb m "nunique" then Some (nat_sv (List.length (qdistinct qs)))      (* x.drop_nulls().n_unique() *)
       else if String.eqb m "median" then Some (match qs with [] => SNull | _ => SNum (qmedian qs) end)
       else if String.eqb m "var" then Some (if (2 <=? List.length qs)%nat then SNum (qvar qs) else SNull)
       else if String.eqb m "std" then (if (2 <=? List.length qs)%nat then option_map SNum (mf "sqrt" (qvar qs)) else Some SNull)
@@ -179,8 +178,8 @@ Definition pl_agg1 (mf : string -> Q -> option Q) (m : string) (l : list sval) :
    no longer has (AttributeError): they raise *)
 Definition pl_window (m : string) (l : list sval) : option (list sval) :=
   if String.eqb m "shift" then Some (match l with [] => [] | _ => SNull :: removelast l end)
-  else if String.eqb m "first" then Some (map (fun _ => match l with [] => SNull | x :: _ => x end) l)        (* x.first(): the first cell, null or not *)
-  else if String.eqb m "last" then Some (map (fun _ => last l SNull) l)
+  else if String.eqb m "first" then Some (map (fun _ => match sql_present l with [] => SNull | x :: _ => x end) l)   (* x.drop_nulls().first() *)
+  else if String.eqb m "last" then Some (map (fun _ => last (sql_present l) SNull) l)                                 (* x.drop_nulls().last() *)
   else if String.eqb m "rank" then
     match all_fin l with Some qs => if qnodup qs then Some (map (fun x => SNum (qrank qs x)) qs) else None | None => None end
   else if String.eqb m "ffill" then Some (ffill_from SNull l)
